@@ -88,7 +88,8 @@ def gridFor (st : St PrivSet) (who : String × String) (dbs tbls : List String) 
       let cells := dbs.flatMap fun d => tbls.map fun t =>
         String.join ((List.range 31).map fun p => b01 (userHasPrivileges v "" [{ db := d, tbl := t, statics := [p] }])) ++
         outcomeDigit (if t = "" then authCheckNames v "" d "" else authCheckNames v "" d t)
-      let rtn := dbs.map fun d => b01 (routineAdminCheck v "" [{ db := d, rtn := "p", isProc := true, statics := [P_Execute] }])
+      let rtn := (dbs.map fun d => b01 (routineAdminCheck v "" [{ db := d, rtn := "p", isProc := true, statics := [P_Execute] }])) ++
+        (dbs.map fun d => b01 (routineAdminCheck v "" [{ db := d, rtn := "f", isProc := false, statics := [P_Execute] }]))
       let rls := roles.map fun r => b01 (roleCheck v "" st.keys st.edges ui [r])
       "S" ++ ".".intercalate cells ++ "/" ++ String.join rtn ++ "/" ++ String.join rls
 
